@@ -192,7 +192,7 @@ func crashConcScenarios() []d1x.Scenario {
 			if _, err := s.x.D.AsyncFlush(); err != nil {
 				s.errs = append(s.errs, "AsyncFlush: "+err.Error())
 			}
-		}, 1, 2, 12),
+		}, 0, 2, 12),
 		mkc("cc-flush+setsync-flush", func(s *ccH) {
 			if err := s.x.D.Set([]byte("z"), []byte("zv"), pebble.Sync); err != nil {
 				s.errs = append(s.errs, "Set(z): "+err.Error())
